@@ -224,6 +224,7 @@ func runFs() {
 		t0 := time.Now()
 		var mu sync.Mutex
 		var hist []histOp
+		handedOut := map[int]bool{}
 		var wg sync.WaitGroup
 		var barrier int64
 		start := make(chan struct{})
@@ -258,6 +259,12 @@ func runFs() {
 					ret := time.Since(t0).Nanoseconds()
 					mu.Lock()
 					hist = append(hist, histOp{c, in, out, call, ret})
+					if (in.Op == "create" || in.Op == "open") && !out.Panic && out.Fd >= 0 && (in.Op == "open" || out.Ok) {
+						handedOut[out.Fd] = true
+					}
+					if in.Op == "close" {
+						delete(handedOut, in.Fd)
+					}
 					mu.Unlock()
 					return out
 				}
@@ -407,6 +414,18 @@ func runFs() {
 		}
 		close(start)
 		wg.Wait()
+		// descriptors still open at the end of the round are closed here (DirFs descriptors are OS descriptors: hundreds of
+		// rounds must not run the process into its descriptor limit); not part of the recorded history
+		handedOut[int(sharedW)] = true
+		for _, f := range sharedR {
+			handedOut[int(f)] = true
+		}
+		for f := range handedOut {
+			func() {
+				defer func() { recover() }()
+				fs.Close(filesys.File(f))
+			}()
+		}
 		if dfs != nil {
 			func() {
 				defer func() { recover() }()
